@@ -11,7 +11,8 @@ kinds     one letter per dummy of the callee `c`
           extent / extent-1 of the actual argument as an expression)
 body      statement templates `name.dummy[.dummy]` separated by `;`
 actuals   actual argument texts (caller variables n, m=n+1, k, r, a(m),
-          b(0:n), q(m,m), w (type ty: f, d(4)), locals i, t, module g)
+          b(0:n), q(m,m), p(2:4,0:3), w (type ty: f, d(4)), locals i, t,
+          module g)
 placement top | loop | if | twice | fexpr | floop | fif | ftwice
 naming    N0 no clash | N1..N4 callee local named t / g / i / k |
           N5 dummies named k, i, r | N6 local named a
@@ -38,7 +39,7 @@ MODULE_HEAD = """module mo
 contains
 """
 
-DRIVER = """  subroutine drv(n, m, k, r, a, b, q, w, og)
+DRIVER = """  subroutine drv(n, m, k, r, a, b, q, p, w, og)
     integer, intent(in) :: n
     integer, intent(in) :: m
     integer, intent(inout) :: k
@@ -46,15 +47,16 @@ DRIVER = """  subroutine drv(n, m, k, r, a, b, q, w, og)
     integer, intent(inout) :: a(m)
     integer, intent(inout) :: b(0:n)
     integer, intent(inout) :: q(m, m)
+    integer, intent(inout) :: p(2:4, 0:3)
     type(ty), intent(inout) :: w
     integer, intent(inout) :: og
     g = 40
-    call s(n, m, k, r, a, b, q, w)
+    call s(n, m, k, r, a, b, q, p, w)
     og = g
   end subroutine drv
 """
 
-CALLER_HEAD = """  subroutine s(n, m, k, r, a, b, q, w)
+CALLER_HEAD = """  subroutine s(n, m, k, r, a, b, q, p, w)
     integer, intent(in) :: n
     integer, intent(in) :: m
     integer, intent(inout) :: k
@@ -62,6 +64,7 @@ CALLER_HEAD = """  subroutine s(n, m, k, r, a, b, q, w)
     integer, intent(inout) :: a(m)
     integer, intent(inout) :: b(0:n)
     integer, intent(inout) :: q(m, m)
+    integer, intent(inout) :: p(2:4, 0:3)
     type(ty), intent(inout) :: w
     integer :: i
     integer :: t
@@ -98,6 +101,14 @@ ARRAY_ACTUALS = [
     ("w%d", "4", "3", 0, "EZAL"),
     # explicit-shape dummy deliberately smaller than the actual
     ("a~short", "n", "n - 1", 0, "EZ"),
+    # sections of p(2:4, 0:3): different non-unit lower bounds per dimension,
+    # range after / before a scalar subscript, starting at / above the
+    # declared lower bound
+    ("p(3, :)", "4", "3", 0, "EZAL"),
+    ("p(m, 0:2)", "3", "2", 0, "EZAL"),
+    ("p(:, 1)", "3", "2", 0, "EZAL"),
+    ("p(2:3, k)", "2", "1", 1, "EZAL"),
+    ("p(3, 1:3)", "3", "2", 1, "EZAL"),
     ("a(:)", "m", "n", 1, "EZAL"),
     ("q(k, :)", "m", "n", 1, "EZA"),
     ("a(2:n)", "n - 1", "n - 2", 1, "EZA"),
@@ -109,6 +120,8 @@ ARRAY_ACTUALS = [
 MATRIX_ACTUALS = [
     ("q", "m", 0), ("q(1:n, 1:n)", "n", 0), ("q(:, :)", "m", 1),
     ("q(2:m, 1:n)", "n", 1),
+    # p is 3 x 4: whole array only for assumed-shape dummies
+    ("p", None, 0), ("p(:, 0:2)", "3", 0), ("p(3:4, 1:2)", "2", 1),
 ]
 STRUCT_ACTUALS = [("w", 0)]
 
@@ -458,7 +471,8 @@ def actual_choices(kind, level):
         return [t for t, _e, _m, lvl, kinds in ARRAY_ACTUALS
                 if lvl <= level and kind in kinds]
     if kind in "MN":
-        return [t for t, _e, lvl in MATRIX_ACTUALS if lvl <= level]
+        return [t for t, ext, lvl in MATRIX_ACTUALS
+                if lvl <= level and not (kind == "N" and ext is None)]
     return [t for t, lvl in STRUCT_ACTUALS if lvl <= level]
 
 
@@ -550,31 +564,37 @@ def quick_families():
                  actual_filter=only(("a(i)",), ("k",)))
     yield family("SC", ["SS"], ["get", "put"], 2, lev, ["top"], minlen=2,
                  actual_filter=only(("k", "i + 1", "a(i)"), ("k", "i")))
-    yield family("AR", ["E", "Z", "A", "L"], ARR, 1, lev, ["top"])
+    yield family("AR", ["E", "Z", "A", "L"], ARR, 1, lev, ["top"],
+                 actual_filter=only(("a", "a(2:m)", "b(1:n)", "a(n:1:-1)", "w%d",
+                                     "a~short", "p(3, :)", "p(m, 0:2)", "p(:, 1)")))
     yield family("AR", ["E", "Z", "A", "L"], ARR, 1, lev, ["loop"],
                  actual_filter=only(("w%d",)))
-    yield family("AR", ["E", "Z"], ARR, 1, lev, ["twice"],
-                 actual_filter=only(("b",)))
     yield family("AR", ["E", "Z", "A", "L"], ["el", "loop", "whole"], 2, lev,
                  ["top"], minlen=2, actual_filter=only(("a(2:m)", "w%d")))
     yield family("AS", ["ES", "ZS", "AS", "LS"], ARRS, 1, lev, ["top"],
-                 actual_filter=only(("a", "b(1:n)", "w%d"), few))
+                 actual_filter=only(("a", "w%d"), few))
     yield family("AS", ["ES", "ZS", "AS", "LS"], ARRS, 1, lev, ["loop"],
                  actual_filter=only(("a",), few))
+    yield family("AS", ["ES", "ZS", "AS"], ["idx", "rd"], 1, lev, ["top"],
+                 actual_filter=only(("p(3, :)", "p(:, 1)"), ("k", "i")))
+    yield family("AR", ["A"], ["el", "sec", "loop"], 2, lev, ["top"],
+                 minlen=2, actual_filter=only(("p(3, :)", "p(m, 0:2)")))
     yield family("AS", ["ES", "ZS", "AS"], ARRS + ["inc"], 2, lev, ["top"],
                  minlen=2, body_filter=lambda b: b.count("inc") == 1,
                  actual_filter=only(("a", "b(1:n)"), ("i", "a(i)")))
     yield family("A2", ["ZA"], ["el", "whole"], 2, lev, ["top"],
                  actual_filter=only(("a", "b"), ("b", "w%d")))
-    yield family("M2", ["M", "N"], MAT, 1, lev, ["top", "loop", "twice"])
+    yield family("M2", ["M", "N"], MAT, 1, lev, ["top", "loop"])
+    yield family("M2", ["M"], ["mel", "mwhole"], 1, lev, ["twice"],
+                 actual_filter=only(("q", "p")))
     yield family("MS", ["MS", "NS"], ["midx"], 1, lev, ["top", "loop"],
-                 actual_filter=only(None, few))
+                 actual_filter=only(("q", "p", "p(:, 0:2)"), few))
     yield family("ST", ["T"], STRU, 2, lev, ["top", "loop"])
     yield family("TS", ["TS"], ["tidx"], 1, lev, ["top", "loop"],
                  actual_filter=only(None, few))
     yield family("NM", ["S"], ["get", "put", "inc"], 2, lev, ["top"],
                  namings=CLASH, actual_filter=only(("k", "a(i)")))
-    yield family("NM", ["S"], ["get", "put", "inc"], 2, lev, ["loop"],
+    yield family("NM", ["S"], ["get", "put"], 2, lev, ["loop"], minlen=2,
                  namings=CLASH, actual_filter=only(("k",)))
     yield family("NM", ["S"], ["get", "put"], 2, lev, ["if"], minlen=2,
                  namings=CLASH, actual_filter=only(("k",)))
@@ -590,7 +610,7 @@ def quick_families():
                  body_filter=lambda b: "gmod" in b,
                  actual_filter=only(("k", "g")))
     yield family("FN", ["S"], ["inc", "get", "put"], 2, lev,
-                 ["fexpr", "floop", "ftwice"], namings=["N0", "N1", "N5"],
+                 ["fexpr", "floop"], namings=["N0", "N1", "N5"],
                  actual_filter=only(("k", "a(i)")))
     yield family("FN", ["S"], ["get"], 1, lev, FUN,
                  actual_filter=only(("i + 1", "5")))
@@ -599,7 +619,7 @@ def quick_families():
     yield family("FN", ["SS"], ["inc", "cpy"], 1, lev, FUN,
                  actual_filter=only(few, few))
     yield family("FN", ["E", "Z", "A"], ["el", "loop", "sum"], 1, lev, FUN,
-                 namings=["N0", "N3"], actual_filter=only(("a", "a(2:m)", "w%d")))
+                 namings=["N0", "N3"], actual_filter=only(("a(2:m)", "w%d")))
     yield family("FN", ["M", "T"], ["mel", "tf", "td"], 1, lev, FUN)
 
 
